@@ -733,6 +733,22 @@ def _r5(ck: Checker, r):
             loops = [st for st in br.body if isinstance(st, ast.For) and any(s in ast.walk(st) for s in mask_stores)]
             good = len(loops) == 1 and isinstance(loops[0].iter, ast.Call) and call_name(loops[0].iter) == "zip" \
                 and unparse(loops[0].iter.args[0]) == "hvsr.hvsrs" and not any(isinstance(x, (ast.Break, ast.Continue, ast.If)) for x in ast.walk(loops[0]))
+            # the members are handed to the container in the order of the file's columns - the order the stored mask lists follow
+            for c in [c for c in calls_in(body) if call_name(c) == "HvsrAzimuthal"]:
+                for kwn, pos in (("hvsrs", 0), ("azimuths", 1)):
+                    a = kwarg(c, kwn) or (c.args[pos] if len(c.args) > pos else None)
+                    if not isinstance(a, ast.Name):
+                        continue
+                    binds = [st for st in ast.walk(body) if isinstance(st, (ast.Assign, ast.AugAssign, ast.AnnAssign)) and any(
+                        isinstance(t, ast.Name) and t.id == a.id for tt in (st.targets if isinstance(st, ast.Assign) else [st.target]) for t in ast.walk(tt))]
+                    extra = [st for st in binds if not (isinstance(st, ast.Assign) and isinstance(st.value, ast.List) and not st.value.elts)]
+                    sorts = [x for x in calls_in(body) if call_name(x) in ("sort", "reverse") and isinstance(x.func, ast.Attribute) and unparse(x.func.value) == a.id]
+                    if extra or sorts:
+                        bad_st = (extra or [parent_stmt(sorts[0])])[0]
+                        good = False
+                        ck.violation("C12.R5", R, f"azimuthal: order of `{a.id}`",
+                                     f"`{norm_key(bad_st, 70)}` re-orders `{a.id}` after it was collected in file order: the stored per-azimuth masks (kept in file order) "
+                                     f"are restored onto other azimuths", loc=r.loc(bad_st))
             if good:
                 ck.ok("C12.R5", R, "azimuthal: masks restored for every azimuth in order", nontrivial=False)
             else:
